@@ -307,6 +307,13 @@ def _open_stream(data, wrap):
     """The byte stream handed to the reader: an in-memory stream, the same wrapped in a BufferedReader, or a real file."""
     if wrap == 'buffered':
         return io.BufferedReader(io.BytesIO(data)), None
+    if wrap in ('offset', 'offset-junk'):
+        # the document is not at the start of the stream: it follows a copy of itself (two documents in one stream) or
+        # bytes that are not DiffX at all, and the stream is positioned at its first byte
+        prefix = data if wrap == 'offset' else b'From: someone\n\n' + data[:7][::-1] * 3
+        fp = io.BytesIO(prefix + data)
+        fp.seek(len(prefix))
+        return fp, None
     if wrap == 'file':
         import os
         import tempfile
